@@ -170,6 +170,9 @@ diff_gr(int32 gr1_id, int32 gr2_id, int32 ref1, int32 ref2, diff_opt_t *opt)
         edges[i] = dimsizes1[i];
         start[i] = 0;
     }
+    /* every pixel holds ncomps1 values; they are compared (and located) as a third dimension */
+    nelms *= (uint32)ncomps1;
+    dimsizes1[2] = ncomps1;
 
     data_size = (size_t)(dimsizes1[0] * dimsizes1[1] * ncomps1 * eltsz);
 
@@ -231,8 +234,8 @@ diff_gr(int32 gr1_id, int32 gr2_id, int32 ref1, int32 ref2, diff_opt_t *opt)
             /* if the given max_err_cnt is set (i.e. not its default MAX_DIFF),
                use it, otherwise, use the total number of elements in the dataset */
             max_err_cnt = (opt->max_err_cnt != MAX_DIFF) ? opt->max_err_cnt : nelms;
-            nfound = array_diff(buf1, buf2, nelms, gr1_name, gr2_name, 2, dimsizes1, dtype1, opt->err_limit,
-                                opt->err_rel, max_err_cnt, opt->statistics, 0, 0);
+            nfound = array_diff(buf1, buf2, nelms, gr1_name, gr2_name, (ncomps1 > 1) ? 3 : 2, dimsizes1, dtype1,
+                                opt->err_limit, opt->err_rel, max_err_cnt, opt->statistics, 0, 0);
         }
 
     } /* compare */
